@@ -49,6 +49,7 @@ type c15Case struct {
 	File      []c15Enh   `json:"file,omitempty"`
 	Queries   []c15Query `json:"queries,omitempty"`
 	Verdicts  []bool     `json:"verdicts,omitempty"`
+	Refusal   int        `json:"refusal,omitempty"` // chain: how the authenticators word an ACL refusal (see progAuth.refusal)
 	V5        bool       `json:"v5,omitempty"`
 	// kind "alias": publishes of one v5 connection, each with a topic number (0: none, alias only) and an alias
 	// (0: none); topic 9 is forbidden by the write ACL
@@ -153,6 +154,7 @@ func (p *c15Prop) Gen(r *Rng, i int, tier string) interface{} {
 		for k := 0; k < n; k++ {
 			c.Verdicts = append(c.Verdicts, r.Chance(45))
 		}
+		c.Refusal = []int{0, 0, 1, 2}[r.Intn(4)]
 		return c
 	}
 	c := &c15Case{Kind: "acl"}
@@ -253,6 +255,7 @@ func (p *c15Prop) Run(ci interface{}) interface{} {
 	for k := range c.Verdicts {
 		k := k
 		auths = append(auths, &progAuth{
+			refusal:  c.Refusal,
 			password: func(_, user, _ string) bool { return user != "tested" || c.Verdicts[k] },
 			acl: func(_, user, topic string, write bool) bool {
 				if user != "tested" {
